@@ -39,6 +39,17 @@ ROOTS = [
 ]
 
 
+# Functions that are opaque on the pinned baseline (allocation-wise self-contained: they free what they
+# allocate and do not release places of their callers).  An opaque callee OUTSIDE this list means the extractor
+# lost a function after a refactoring; since such a function may release places of its caller (e.g. a `cleanup`),
+# a root that reaches one makes NO claim (dropped from skelRoots, noted) instead of risking a false alarm.
+EXPECTED_OPAQUE = {
+    "EntropyTally::new", "EntropyPyramid::new", "StrideEval::new", "compute_huffman_table_index_for_context_map",
+    "process_command_queue", "PriorEval::new", "EntropyPyramid::free", "LogMetaBlock", "BrotliBuildMetaBlock",
+    "FindAllMatchesH10", "UpdateNodes", "BrotliZopfliComputeShortestPath", "ZopfliIterate",
+}
+
+
 class Unavailable(Exception):
     pass
 
@@ -1654,6 +1665,40 @@ def generate(tokens_of, repo, outdir):
         while k < len(gen.order):
             gen.relevant(gen.order[k])
             k += 1
+        # drop the roots that reach an unexpected opaque callee
+        def qname(f):
+            return ((f.impl + "::") if f.impl else "") + f.name
+
+        def reach(fid, seen):
+            if fid in seen:
+                return
+            seen.add(fid)
+            n = gen.skel.get(gen.order[fid].key)
+
+            def walk(x):
+                if x is None:
+                    return
+                if x[0] in ("seq", "alt"):
+                    for y in x[1]:
+                        walk(y)
+                elif x[0] == "loop":
+                    walk(x[1])
+                elif x[0] == "scope":
+                    walk(x[2])
+                elif x[0] in ("call", "opaque"):
+                    reach(x[1], seen)
+            walk(n)
+        kept = []
+        for nm, fid, esc in roots_found:
+            seen = set()
+            reach(fid, seen)
+            bad = sorted(qname(gen.order[i]) for i in seen
+                         if gen.skel.get(gen.order[i].key) is None and qname(gen.order[i]) not in EXPECTED_OPAQUE)
+            if bad:
+                notes.append("skeleton root %s makes no claim: unexpected opaque callee(s) %s (run-time check decides)" % (nm, ", ".join(bad)))
+            else:
+                kept.append((nm, fid, esc))
+        roots_found = kept
         text, un = emit_lean(gen, roots_found)
         for f, w in un:
             notes.append("skeleton unavailable for %s%s (%s): %s — its calls are opaque (run-time check decides)" % ((f.impl + "::") if f.impl else "", f.name, f.path, w))
